@@ -170,8 +170,9 @@ func newOracle(cfg Cfg) *oracle {
 	} else {
 		for _, rec := range cfg.Init {
 			p := strings.SplitN(rec, "~", 2)
-			if _, dup := o.items[p[0]]; !dup {
-				o.items[p[0]] = ritem{m: rparse(p[1]), t: "0"}
+			// an initial record is kept under the id interceptor's image of its id (fix 215ba16)
+			if _, dup := o.items[o.icpt(p[0])]; !dup {
+				o.items[o.icpt(p[0])] = ritem{m: rparse(p[1]), t: "0"}
 			}
 		}
 	}
